@@ -547,6 +547,14 @@ func (db *DB) ResetLocalState(ctx context.Context) error {
 
 	db.invalidatePosCache()
 
+	// The in-memory sync cursor describes the WAL relative to the local LTX
+	// files that were just removed, some of which may never have been
+	// uploaded. Continuity must be re-verified against the baseline alone,
+	// as after Close.
+	db.mu.Lock()
+	db.syncState = syncState{}
+	db.mu.Unlock()
+
 	// When reset at run time (auto-recovery), re-establish the baseline from
 	// the replica just as init() does. Otherwise local TXIDs restart at 1 below
 	// the replica's position and replica syncs succeed without uploading.
